@@ -32,8 +32,13 @@ Definition times_ok (o : xobs) : bool :=
                            && ((e_astart e =? -1) || ((x_start o <=? e_astart e) && (e_astart e <=? e_time e)))
                     end) (x_events o).
 
+(* what the function could read of the previous attempt (LastResult / LastError) was the same at its exit as at its
+   entry: the harness reports a difference in the aux field of the function-exit entry (the model's is always 0) *)
+Definition exit_view_ok (o : xobs) : bool :=
+  forallb (fun e => match e_kind e with KFnEnd => e_aux e =? 0 | _ => true end) (x_events o).
+
 Definition c17_ok (q : request) (o : xobs) : bool :=
-  if q_withexec q then stats_ok [] 0 0 0 (match x_events o with e :: _ => e_time e | [] => 0 end) (x_events o) && times_ok o else true.
+  if q_withexec q then stats_ok [] 0 0 0 (match x_events o with e :: _ => e_time e | [] => 0 end) (x_events o) && times_ok o && exit_view_ok o else true.
 
 (* ---- C16: completion events exactly once and consistent; retry events consistent *)
 Definition last_n {A} (n : nat) (l : list A) : list A := rev (firstn n (rev l)).
